@@ -9,17 +9,20 @@ import (
 	"hash/fnv"
 	"math/rand"
 	"os"
+	"path/filepath"
 	"runtime"
 	"sort"
 	"strings"
 	"sync"
 	"sync/atomic"
+	"syscall"
 	"time"
 
 	"verif/internal/mfs"
 	"verif/internal/sup"
 
 	"github.com/goatcms/goatcore/filesystem"
+	"github.com/goatcms/goatcore/filesystem/filespace/diskfs"
 	"github.com/goatcms/goatcore/filesystem/filespace/memfs"
 	"github.com/goatcms/goatcore/filesystem/fshelper"
 	"github.com/goatcms/goatcore/filesystem/fsloop"
@@ -271,6 +274,9 @@ type runCfg struct {
 	Hold     int    `json:"hold"`   // callback hold (gosched rounds)
 	Script   string `json:"script"` // "", "gap", "between"
 	ViaCopy  bool   `json:"via_copy"`
+	// Disk: the tree lives on a disk filespace and one file in four (where a regular file precedes
+	// it in its directory) is a symbolic link to that file – a file like any other for the loop
+	Disk bool `json:"disk,omitempty"`
 }
 
 func effConsumers(c int) int {
@@ -306,9 +312,57 @@ func mkNoise(seed uint64, level int) func() {
 	}
 }
 
+// buildDisk writes the tree below dir; returns the filespace and the number of symbolic links.
+func (t *tree) buildDisk(dir string) (filesystem.Filespace, int, error) {
+	for _, d := range t.dirs {
+		if err := os.MkdirAll(filepath.Join(dir, filepath.FromSlash(d)), 0755); err != nil {
+			return nil, 0, err
+		}
+	}
+	files := append([]string{}, t.files...)
+	sort.Strings(files)
+	lastRegular := map[string]string{} // directory -> name of a regular file in it
+	links := 0
+	for i, f := range files {
+		full := filepath.Join(dir, filepath.FromSlash(f))
+		d, name := filepath.Split(full)
+		if err := os.MkdirAll(d, 0755); err != nil {
+			return nil, 0, err
+		}
+		if target, ok := lastRegular[d]; ok && i%4 == 1 {
+			if err := os.Symlink(target, full); err != nil {
+				return nil, 0, err
+			}
+			links++
+			continue
+		}
+		if err := os.WriteFile(full, []byte("content of "+f), 0644); err != nil {
+			return nil, 0, err
+		}
+		lastRegular[d] = name
+	}
+	fs, err := diskfs.NewFilespace(dir)
+	return fs, links, err
+}
+
 func runLoop(r *sup.CaseResult, rng *rand.Rand, cfg runCfg) {
 	t := genTree(rng, cfg.Shape)
-	base, err := t.build()
+	var base filesystem.Filespace
+	var err error
+	if cfg.Disk {
+		tmp, e := os.MkdirTemp("", "c08d-")
+		if e != nil {
+			r.Inconclusive = e.Error()
+			return
+		}
+		defer os.RemoveAll(tmp)
+		var links int
+		base, links, err = t.buildDisk(tmp)
+		r.AddObs("trees_on_a_disk_filespace", 1)
+		r.AddObs("symbolic_links_to_files_in_disk_trees", int64(links))
+	} else {
+		base, err = t.build()
+	}
 	if err != nil {
 		r.Inconclusive = "tree build: " + err.Error()
 		return
@@ -413,6 +467,11 @@ func runLoop(r *sup.CaseResult, rng *rand.Rand, cfg runCfg) {
 	if cfg.Fault != "" && !scopeFault {
 		failErr = fmt.Errorf("injected-%s-%08x", cfg.Fault, rng.Uint32())
 		if cfg.Fault == "readdir" || cfg.Fault == "cb-then-readdir" {
+			if rng.Intn(2) == 0 {
+				// what a disk filespace answers for a directory that vanished after its parent was listed:
+				// a listing error like any other
+				failErr = &os.PathError{Op: "open", Path: failErr.Error(), Err: syscall.ENOENT}
+			}
 			src.failErr = failErr
 		}
 	}
@@ -1064,6 +1123,9 @@ func genCfg(rng *rand.Rand, idx int) runCfg {
 		cfg.Fault, cfg.OnFile, cfg.OnDir, cfg.UseFileF, cfg.UseDirF, cfg.C = "cb-then-readdir", true, false, false, false, 2+rng.Intn(3)
 		return cfg
 	}
+	if idx%10 == 3 && cfg.Shape == "random" {
+		cfg.Disk = true
+	}
 	if idx%23 == 7 && !strings.HasPrefix(cfg.Shape, "wide") {
 		// the loop is bound to an event scope and a kill / error event fires on that scope from
 		// inside the k-th callback: nodes may be skipped then, but never silently
@@ -1115,7 +1177,7 @@ func main() {
 		Level: "exploration",
 		Race:  true,
 		Rule: "script: controlled schedule through the verif hooks – every consumer is parked at fsloop.consumer.gap / .between after it has seen empty queues, a gated source then lets the last directory be listed, the close announcement (fsloop.closed) is awaited, the consumers are released; directly on fsloop.Loop (1…16 consumers) and through fshelper.Copy. " +
-			"rand: trees (empty, single, chain of 30, fan-out 1100/2300 > channel capacity, random) × hash-keyed dir/file filters × producers/consumers 0…16 × GOMAXPROCS {1,2,4,16} × scheduling noise from the hook callback and the source's ReadDir × one injected callback/listing fault in 3/8 of the runs (1–3 goroutines poll Errors() meanwhile); half of the fan-out trees: one or two consumers and the very first file callback fails once the producer is parked on the full queue – Wait must return and report it (a Wait that does not return is judged from goroutine dumps: no callback running, every goroutine of the loop parked); cb-then-readdir: a first callback fails (killing the loop), a listing held back until the kill is visible fails next, and a second callback – which keeps Wait from returning and in half of the runs fails too – waits until the listing error is listed or a goroutine dump shows no producer goroutine left: both later errors must be in the error list; random trees carry unusual legal names (dots only, hidden, blanks) in one entry in twelve; event log (enter/exit/waited with one sequence counter) checked offline: exactly-once, nothing unexpected, max in-flight ≤ consumer limit, nothing after Wait, error present iff injected. distinct = distinct (configuration, hook-order signature, tree size)",
+			"rand: trees (empty, single, chain of 30, fan-out 1100/2300 > channel capacity, random) × hash-keyed dir/file filters × producers/consumers 0…16 × GOMAXPROCS {1,2,4,16} × scheduling noise from the hook callback and the source's ReadDir × one injected callback/listing fault in 3/8 of the runs (1–3 goroutines poll Errors() meanwhile); half of the fan-out trees: one or two consumers and the very first file callback fails once the producer is parked on the full queue – Wait must return and report it (a Wait that does not return is judged from goroutine dumps: no callback running, every goroutine of the loop parked); cb-then-readdir: a first callback fails (killing the loop), a listing held back until the kill is visible fails next, and a second callback – which keeps Wait from returning and in half of the runs fails too – waits until the listing error is listed or a goroutine dump shows no producer goroutine left: both later errors must be in the error list; random trees carry unusual legal names (dots only, hidden, blanks) in one entry in twelve, one in ten lives on a disk filespace with symbolic links to files; half of the injected listing errors are *os.PathError{ENOENT}; event log (enter/exit/waited with one sequence counter) checked offline: exactly-once, nothing unexpected, max in-flight ≤ consumer limit, nothing after Wait, error present iff injected. distinct = distinct (configuration, hook-order signature, tree size)",
 		Assumptions: []string{
 			"strict mode: after an error skipping is allowed, repetition is not",
 			"effective consumer limit = min(Consumers or MaxJob, MaxJob), MaxJob = NumCPU",
